@@ -672,10 +672,34 @@ impl TypeChecker {
         }
 
         let callee_ty = self.check_expr(callee);
-        self.check_call_args(args);
+        let arg_tys = self.check_call_arg_types(args);
 
         match callee_ty {
-            ResolvedType::Function(_, ret) => *ret,
+            ResolvedType::Function(params, ret) => {
+                // Positional arguments must fit the declared parameter types (same rule as an annotated binding).
+                for (i, (arg, arg_ty)) in args.iter().zip(arg_tys.iter()).enumerate() {
+                    if let (CallArg::Positional(expr), Some(param_ty)) = (arg, params.get(i)) {
+                        // A parameter typed with a trait accepts any adopter; conformance is not decided here.
+                        let param_is_trait = match param_ty {
+                            ResolvedType::Named(n) => self
+                                .symbols
+                                .lookup(n)
+                                .and_then(|id| self.symbols.get(id))
+                                .map(|sym| matches!(sym.kind, SymbolKind::Trait(_)))
+                                .unwrap_or(false),
+                            _ => false,
+                        };
+                        if !param_is_trait && !self.types_compatible(arg_ty, param_ty) {
+                            self.errors.push(errors::type_mismatch(
+                                &param_ty.to_string(),
+                                &arg_ty.to_string(),
+                                expr.span,
+                            ));
+                        }
+                    }
+                }
+                *ret
+            }
             ResolvedType::Named(name) => {
                 if let Some(id) = self.symbols.lookup(&name) {
                     if let Some(sym) = self.symbols.get(id) {
